@@ -146,9 +146,27 @@ func (s *Stats) Sample(v any) {
 	s.mu.Unlock()
 }
 
+// Get and Set read and write one counter under the lock (goroutines of a harness may be counting meanwhile).
+func (s *Stats) Get(k string) int {
+	s.mu.Lock()
+	defer s.mu.Unlock()
+
+	return s.M[k]
+}
+
+func (s *Stats) Set(k string, n int) {
+	s.mu.Lock()
+	s.M[k] = n
+	s.mu.Unlock()
+}
+
 func (s *Stats) Save(name string) {
 	w := Out(name)
+
+	// the encoder iterates the map: keep counters that other goroutines are still adding to out of its way
+	s.mu.Lock()
 	w.Write(s)
+	s.mu.Unlock()
 	w.Close()
 }
 
